@@ -377,8 +377,28 @@ class Program(object):
             return base + "." + name if base else name
         return base
 
-    def _bind_imports(self, m: Module):
-        for node in m.tree.body:
+    def _bind_imports(self, m: Module, body=None, alt=False):
+        """module-level imports; `try: import a / except ImportError: import b` binds what the try body imports (what
+        succeeds on the interpreter the library is analysed for) and remembers the fallbacks as alternatives"""
+        for node in (m.tree.body if body is None else body):
+            if isinstance(node, ast.Try) and body is None and node.handlers and all(
+                    h.type is None or any(isinstance(x, ast.Name) and x.id in ("ImportError", "ModuleNotFoundError", "Exception") for x in ast.walk(h.type))
+                    for h in node.handlers):
+                before = dict(m.bindings)
+                for h in node.handlers:
+                    self._bind_imports(m, h.body, alt=True)
+                fallbacks = {k: v for k, v in m.bindings.items() if before.get(k) is not v}
+                m.bindings.clear()
+                m.bindings.update(before)
+                self._bind_imports(m, node.body, alt=True)
+                if not hasattr(m, "import_alternatives"):
+                    m.import_alternatives = {}
+                for k, v in fallbacks.items():
+                    if k in m.bindings and m.bindings[k] != v:
+                        m.import_alternatives.setdefault(k, []).append(v)
+                    elif k not in m.bindings:
+                        m.bindings[k] = v
+                continue
             if isinstance(node, ast.Import):
                 for a in node.names:
                     if a.asname:
